@@ -1146,7 +1146,7 @@ run_unit(uint64_t u)
 			SEC[s].fn(u);
 			flush_counters();
 			vf_count("units_done", 1);
-			alarm(0);
+			hx_watchdog(0);
 			return;
 		}
 		u -= SEC[s].nunits;
